@@ -710,6 +710,7 @@ run_text(const char *text, verdict_t *v, int sample) {
 }
 
 static uint64_t gidx;
+static long slow_ms; /* --slow-ms N: development aid, notes cases slower than N ms */
 
 /* announce + run + (on failure) re-run + report */
 static void
@@ -719,8 +720,13 @@ do_case(const char *text, int sample) {
   if (!drv_mine(gidx++))
     return;
   drv_case("%s", text);
-  if (!run_text(text, &v, sample))
-    vh_die("c17_edit: cannot parse own case text: %s", text);
+  {
+    double t0 = slow_ms > 0 ? drv_elapsed() : 0;
+    if (!run_text(text, &v, sample))
+      vh_die("c17_edit: cannot parse own case text: %s", text);
+    if (slow_ms > 0 && (drv_elapsed() - t0) * 1000 > (double)slow_ms)
+      drv_note("slow case (%.1f ms): %s", (drv_elapsed() - t0) * 1000, text);
+  }
   n_eval++;
   if (!v.sig)
     return;
@@ -786,11 +792,11 @@ enum_edits(void) {
                 if (c.K >= K_BIG && c.F > 3)
                   continue; /* declared exclusion: 16 KiB keys only with <= 3 new files */
                 /* The 2000-item edits cost ~10 ms each under ASan (their cost is the item list):
-                 * thorough keeps masks {0,31} for them; quick keeps mask 31, C=1, key shapes
+                 * thorough keeps masks {0,31} and C in {1,7} for them; quick keeps mask 31, C=1, key shapes
                  * {8 bytes, 300 bytes} and every 4th value (0, 16383, 2^21+1, 2^32-1, 2^42-1,
                  * 2^56-1, 2^64-1). */
                 if (c.F > 3 || c.D > 3) {
-                  if (drv.thorough ? !(c.m == 0 || c.m == 31)
+                  if (drv.thorough ? (!(c.m == 0 || c.m == 31) || c.C == 0)
                                    : (c.m != 31 || c.C != 1 || c.vi % 4 != 0 || !(c.K == K_MIN8 || c.K == K_300)))
                     continue;
                 }
@@ -981,6 +987,7 @@ main(int argc, char **argv) {
   for (i = 0; i < sizeof(cmp_arbitrary); i++)
     cmp_arbitrary[i] = (uint8_t)(i * 37 + 0xff); /* starts with 0xff, contains 0x00 */
 
+  slow_ms = drv_opt_long("slow-ms", 0);
   if (drv.replay) {
     verdict_t v;
     if (!run_text(drv.replay, &v, 0))
@@ -1019,7 +1026,7 @@ main(int argc, char **argv) {
            "G2{7 levels x %d key shapes (8..16384 bytes) x F,D in {0,1,3,2000} x C in {0,1,7} x %d values x %s; "
            "16 KiB keys only with F<=3}; varint32: %s; diff: all byte strings of length <= %d + alphabet^<=6 + chains",
            drv.thorough ? "thorough" : "quick", NV, NCS, NK, NV,
-           drv.thorough ? "32 masks (masks {0,31} for 2000-item edits)"
+           drv.thorough ? "32 masks (masks {0,31} and C in {1,7} for 2000-item edits)"
                         : "masks {0,31} (2000-item edits lowered to mask 31, C=1, key shapes {8,300} bytes, every 4th value: tens of ms each under ASan)",
            drv.thorough ? "all 2^32 values" : "all values < 2^21 and +-300 around 2^7,2^14,2^21,2^28,2^31,2^32-1",
            drv.thorough ? 3 : 2);
